@@ -28,7 +28,7 @@ func (q frontReq) sx() string {
 }
 
 var frontMethods = []string{"OPTIONS", "GET", "HEAD", "PUT", "DELETE", "PROPFIND", "PROPPATCH", "MKCOL", "COPY", "MOVE", "REPORT", "FOO", "get", "POST", "LOCK"}
-var frontCtypes = []string{"none", "xml", "textxml", "obj", "objparam", "otherobj", "other", "bad"}
+var frontCtypes = []string{"none", "xml", "textxml", "obj", "objparam", "otherobj", "other", "bad", "objbadparam", "xmlbadparam"}
 var frontBodies = []string{"empty", "trunc", "random", "wrongroot", "noform", "valid", "objok", "objbad", "badrt"}
 var frontDepths = []string{"absent", "0", "1", "infinity", "bad"}
 var frontOws = []string{"absent", "T", "F", "bad"}
@@ -137,6 +137,12 @@ func frontBody(q frontReq, r *RNG) string {
 	return ""
 }
 
+// malformed media-type parameters: mime.ParseMediaType returns the media type together with ErrInvalidMediaParameter
+var badParams = []string{"; charset", "; charset=", "; =utf-8", "; charset=\"utf-8", "; component=VEVENT garbage"}
+var badParamCounter int
+
+func h2i(h http.Header) int { badParamCounter++; return badParamCounter }
+
 func frontHeaders(q frontReq, h http.Header) {
 	obj, other := "text/calendar", "text/vcard"
 	if q.srv == "card" {
@@ -157,6 +163,10 @@ func frontHeaders(q frontReq, h http.Header) {
 		h.Set("Content-Type", "application/json")
 	case "bad":
 		h.Set("Content-Type", "text/;;=")
+	case "objbadparam":
+		h.Set("Content-Type", obj+badParams[int(h2i(h))%len(badParams)])
+	case "xmlbadparam":
+		h.Set("Content-Type", "application/xml"+badParams[int(h2i(h))%len(badParams)])
 	}
 	switch q.depth {
 	case "0", "1", "infinity":
